@@ -32,8 +32,9 @@ def grids() -> Dict[str, Any]:
 class World:
     """The real objects of one history."""
 
-    def __init__(self, kind: str, holder: str, initver: int = 0):
+    def __init__(self, kind: str, holder: str, initver: int = 0, members: str = "ddf"):
         self.kind = kind
+        self.members = members  # member type of the composite kind SEQ: predicted displacement fields, or predicted LINEAR transforms
         self.grids = grids()
         self.objs: Dict[int, Any] = {}
         self.current = [None]
@@ -66,7 +67,7 @@ class World:
                 def predict(c=0, ref=ref):
                     return world.params_for(ref[0], c)
 
-                ch = S.DisplacementFieldTransform(G, params=predict)
+                ch = (S.DisplacementFieldTransform if self.members == "ddf" else S.Translation)(G, params=predict)
                 ref[0] = ch
                 children.append(ch)
             return S.SequentialTransform(*children)
